@@ -260,20 +260,37 @@ class Gen:
             S["steps"].append({"ev": ev, "a": {"tx": self.r.choice(sorted(S["mined"]))}})
 
     def reobserve(self, S):
+        """A re-observation request; with some probability the chain moves in the gap between the handler's two
+        requests (head read / receipt read, whichever order the code under test uses): the head advances to exactly
+        block + confirmations (or far beyond) and the transaction's block is replaced, with or without re-inclusion."""
         r = self.r
         tx = r.choice(sorted(S["txs"]) + ["nope"]) if S["txs"] else "nope"
         st = {"ev": "Reobserve", "a": {"tx": tx}}
-        if r.random() < 0.3 and tx in S["mined"]:
+        if r.random() < 0.45 and tx in S["mined"]:
             b = S["mined"][tx]
-            mid = [{"ev": "NewHead", "a": {"latest": S["latest"] + 70, "final": S["final"] + 70}}]
-            S["latest"] += 70
-            S["final"] += 70
-            if not (S["fin"] and b <= S["final"] - 70) and r.random() < 0.7:
+            cur = self.tag_head(S)
+            cls = [lg["cl"] for lg in S["txs"][tx] if lg["core"] and lg["topic"]] or [0]
+            target = b + self.conf(S, r.choice(cls)) + r.choice([0, 0, 1, 70])
+            j = max(1, target - cur)
+            if S["fin"]:
+                S["final"] += j
+                S["latest"] = max(S["latest"], S["final"] + S["lag"])
+            else:
+                S["latest"] += j
+                S["final"] = max(S["final"], S["latest"] - S["lag"])
+            mid = [{"ev": "NewHead", "a": {"latest": S["latest"], "final": S["final"]}}]
+            if r.random() < 0.3:
+                mid = []       # only the chain content changes
+            if not (S["fin"] and b <= S["final"] - j) and r.random() < 0.8:
                 mid.append({"ev": "Reorg", "a": {"n": b}})
                 if r.random() < 0.5:
-                    mid.append({"ev": "Remine", "a": {"tx": tx, "n": S["latest"], "status": 1}})
-                    S["mined"][tx] = S["latest"]
-            st["mid"] = [{"after": 0, "steps": mid}]
+                    nb = r.choice([b, S["latest"]])
+                    mid.append({"ev": "Remine", "a": {"tx": tx, "n": nb, "status": 1 if r.random() < 0.85 else 0}})
+                    S["mined"][tx] = nb
+            elif r.random() < 0.5:
+                mid.append({"ev": r.choice(["DropReceipt", "FailTx"]), "a": {"tx": tx}})
+            if mid:
+                st["mid"] = [{"after": 0, "steps": mid}]
         S["steps"].append(st)
 
 
